@@ -252,6 +252,16 @@ def patch_ciphers():
         if TRACE is not None:
             TRACE.session_key(key, "a")
 
+    import aiohomekit.controller.ip.connection as ipc
+    sp_init = ipc.SecureHomeKitProtocol.__init__
+
+    def sp(self, connection, a2c_key, c2a_key):
+        sp_init(self, connection, a2c_key, c2a_key)
+        if TRACE is not None:
+            TRACE.session_key(a2c_key, "a")
+            TRACE.session_key(c2a_key, "c")
+
+    ipc.SecureHomeKitProtocol.__init__ = sp
     bk.EncryptionKey.__init__ = ek
     bk.DecryptionKey.__init__ = dk
     cc.ChaCha20Poly1305Encryptor.__init__ = enc_init
@@ -293,6 +303,13 @@ class VLoop(asyncio.SelectorEventLoop):
 
     def time(self):
         return self.vt
+
+    async def create_connection(self, protocol_factory, host=None, port=None, *, sock=None, **kw):
+        """loop.create_connection(..., sock=<FakeSock>) as used by HomeKitConnection._connect_once"""
+        proto = protocol_factory()
+        tr = FakeTransport(self, proto, run=getattr(sock, "run", None))
+        proto.connection_made(tr)
+        return tr, proto
 
 
 _loop = None
@@ -359,22 +376,104 @@ class Requests:
                 t.exception()
 
 
+# --------------------------------------------------------------------------- pair-verify peer
+def ble_identities():
+    """Deterministic long-term keys of the controller and the reference accessory (per process)."""
+    global _BLE_IDS
+    if _BLE_IDS is None:
+        from cryptography.hazmat.primitives import serialization
+        from cryptography.hazmat.primitives.asymmetric.ed25519 import Ed25519PrivateKey
+        raw = dict(encoding=serialization.Encoding.Raw, format=serialization.PublicFormat.Raw)
+        acc_ltsk = Ed25519PrivateKey.from_private_bytes(b"\x11" * 32)
+        ctrl_seed = b"\x22" * 32
+        ctrl_ltpk = Ed25519PrivateKey.from_private_bytes(ctrl_seed).public_key().public_bytes(**raw)
+        _BLE_IDS = dict(acc_id=b"00:00:00:00:00:01", acc_ltsk=acc_ltsk, acc_ltpk=acc_ltsk.public_key().public_bytes(**raw),
+                        ctrl_id=b"c06-controller", ctrl_seed=ctrl_seed, ctrl_ltpk=ctrl_ltpk)
+    return _BLE_IDS
+
+
+_BLE_IDS = None
+
+
+def pairing_data(**extra):
+    ids = ble_identities()
+    d = {"AccessoryPairingID": ids["acc_id"].decode(), "iOSPairingId": ids["ctrl_id"].decode(),
+         "AccessoryLTPK": ids["acc_ltpk"].hex(), "iOSDeviceLTSK": ids["ctrl_seed"].hex(), "iOSDeviceLTPK": ids["ctrl_ltpk"].hex()}
+    d.update(extra)
+    return d
+
+
+class PvPeer:
+    """Who answers the controller's pair-verify: the independent reference accessory (ref/c06acc.py), or an on-path
+    attacker who only plays back the accessory's replies (M2, M4) of an earlier full verify."""
+
+    def __init__(self):
+        from ref.c06acc import PairVerifyAccessory
+        ids = ble_identities()
+        self.acc = PairVerifyAccessory(ids["acc_id"], ids["acc_ltsk"], ids["ctrl_id"], ids["ctrl_ltpk"])
+        self.replay = None       # not None: replies still to be played back
+        self.cur = []
+        self.recorded = None     # (replies of the last full verify, accessory epoch of that session)
+        self.new_secret = None
+
+    def begin(self, replay=False):
+        self.new_secret, self.cur = None, []
+        self.replay = list(self.recorded[0]) if replay and self.recorded else None
+
+    def handle(self, tlv):
+        from ref.tlv8 import ref_encode
+        if self.replay is not None:
+            return self.replay.pop(0) if self.replay else ref_encode([(6, b"\x02"), (7, b"\x02")])
+        reply, secret = self.acc.handle(tlv)
+        self.cur.append(reply)
+        if secret is not None:
+            self.new_secret = secret
+        return reply
+
+    def end(self, acc_epoch):
+        """After a genuine handshake that established a session numbered acc_epoch on the accessory side."""
+        self.replay = None
+        if self.acc.last == "full":
+            self.recorded = (list(self.cur), acc_epoch)
+
+
 # --------------------------------------------------------------------------- IP
 class FakeTransport(asyncio.Transport):
     """In-memory transport with the selector transport's contract: nothing is delivered or written once
     closing; close() -> connection_lost via call_soon; an exception out of data_received is fatal."""
 
-    def __init__(self, loop, proto):
+    def __init__(self, loop, proto, run=None):
         super().__init__()
-        self.loop, self.proto, self.closing = loop, proto, False
+        self.loop, self.proto, self.closing, self.run = loop, proto, False, run
+        self.plain = b""
 
     def is_closing(self):
         return self.closing
+
+    def set_protocol(self, proto):
+        self.proto = proto
+
+    def get_protocol(self):
+        return self.proto
+
+    def get_extra_info(self, name, default=None):
+        return default
 
     def _write(self, data):
         if self.closing:
             return
         data = bytes(data)
+        if type(self.proto).__name__ != "SecureHomeKitProtocol":
+            # plain HTTP before the secure session: only /pair-verify is spoken here
+            self.plain += data
+            head, sep, body = self.plain.partition(b"\r\n\r\n")
+            if sep:
+                m = [ln for ln in head.split(b"\r\n") if ln.lower().startswith(b"content-length:")]
+                need = int(m[0].split(b":")[1]) if m else 0
+                if len(body) >= need:
+                    self.plain = b""
+                    self.run.on_plain_request(self, head, body[:need])
+            return
         while len(data) >= 2:
             ln = struct.unpack("<H", data[:2])[0]
             TRACE.wire(data[2:2 + ln + 16])
@@ -420,34 +519,112 @@ class FakeTransport(asyncio.Transport):
             self.close()
 
 
+class FakeSock:
+    def __init__(self, run):
+        self.run = run
+
+    def getpeername(self):
+        return ("10.0.0.1", 80)
+
+    def setsockopt(self, *a):
+        pass
+
+    def close(self):
+        pass
+
+
 class IpRun:
+    """One long-lived real SecureHomeKitConnection.  Every session is set up by the real _connect_once: TCP connect
+    (seams: aiohappyeyeballs.start_connection, loop.create_connection -> in-memory transport), pair-verify over plain
+    HTTP through post_tlv / get_session_keys against the reference accessory, key derivation, switch to the real
+    SecureHomeKitProtocol.  The automatic reconnector (_start_connector, C10's subject) is switched off: reconnects
+    are explicit events.  Session keys are identified by their BYTES (SecureHomeKitProtocol constructor wrapped)."""
+
     def __init__(self):
         patch_ciphers()
+        import aiohomekit.controller.ip.connection as ipc
+        self.ipc = ipc
         self.loop = get_loop()
         self.reqs = Requests(self.loop)
-        self.epoch = -1
-        self.events_seen = []
-        self.conn = types.SimpleNamespace(_connection_lost=lambda *a, **k: None, event_received=self.events_seen.append,
-                                          name="c06", owner=None)
+        self.peer = PvPeer()
+        self.epoch = -1          # controller side: epoch id of the key bytes in use
+        self.acc_epoch = -1      # accessory side
+        self.n_acc = 0
         self.acc_keys = {}
-        self.old_cache = {}
-        self.new_session()
+        self.cache = {}
+        self.sessions = []
 
-    def new_session(self):
-        from aiohomekit.controller.ip.connection import SecureHomeKitProtocol
-        self.epoch += 1
-        a2c, c2a = TRACE.register(self.epoch, "a"), TRACE.register(self.epoch, "c")
-        self.acc_keys[self.epoch] = aead(a2c)
-
-        async def make():          # the protocol captures the running loop
-            return SecureHomeKitProtocol(self.conn, a2c, c2a)
+        async def make():
+            conn = ipc.SecureHomeKitConnection(None, pairing_data(AccessoryIP="10.0.0.1", AccessoryPort=80))
+            conn._start_connector = lambda: None
+            return conn
         t = self.loop.create_task(make())
         settle(self.loop)
-        self.proto = t.result()
-        self.tr = FakeTransport(self.loop, self.proto)
-        self.proto.connection_made(self.tr)
+        self.conn = t.result()
+        self.new_session()
+
+    def on_plain_request(self, tr, head, body):
+        reply = self.peer.handle(body)
+        resp = b"HTTP/1.1 200 OK\r\nContent-Type: application/pairing+tlv8\r\nContent-Length: %d\r\n\r\n" % len(reply) + reply
+        self.loop.call_soon(tr.deliver, resp)
+
+    def connect(self, replay=False):
+        ipc = self.ipc
+
+        async def start_connection(addr_infos, **kw):
+            return FakeSock(self)
+        saved = ipc.aiohappyeyeballs.start_connection
+        ipc.aiohappyeyeballs.start_connection = start_connection
+        self.peer.begin(replay)
+        try:
+            t = self.loop.create_task(self.conn._connect_once())
+            settle(self.loop)
+            if not t.done():
+                t.cancel()
+                settle(self.loop)
+                raise RuntimeError("IP connect did not complete")
+            if replay:
+                t.exception()
+            else:
+                t.result()
+        finally:
+            ipc.aiohappyeyeballs.start_connection = saved
+        return type(self.conn.protocol).__name__ == "SecureHomeKitProtocol"
+
+    def adopt(self):
+        self.proto, self.tr = self.conn.protocol, self.conn.transport
+        cur = TRACE.current.get("c")
+        if cur is not None:
+            self.epoch = TRACE.keys[cur][0]
         self.srv = 0
-        self.cache = {}
+
+    def new_session(self):
+        from ref.c06acc import session_keys
+        if not self.connect():
+            raise RuntimeError("genuine pair-verify did not produce a secure session")
+        c2a, a2c = session_keys(self.peer.new_secret)          # the accessory derives ITS keys itself
+        self.acc_epoch = self.n_acc
+        self.n_acc += 1
+        self.acc_keys[self.acc_epoch] = aead(a2c)
+        self.peer.end(self.acc_epoch)
+        self.sessions.append("full")
+        self.adopt()
+
+    def replayed_session(self):
+        """'RR' on IP: the connection is closed, an attacker answers the next pair-verify with the recorded M2/M4.  The
+        unchanged code rejects it (fresh ephemeral key); the real reconnector then drops the transport and tries
+        again, here against the genuine accessory: the event is the model's Reconnect.  If the replay is accepted
+        the session can only have the recorded keys, and the attacker continues with that session's frames."""
+        if self.peer.recorded is None:
+            return self.new_session()
+        if self.connect(replay=True):
+            self.sessions.append("replayed")
+            self.acc_epoch = self.peer.recorded[1]
+            self.adopt()
+        else:
+            self.conn._drop_transport()
+            settle(self.loop)
+            self.new_session()
 
     def frame(self, epoch, i, ahead=0):
         """The accessory's frame with nonce i.  [ahead] = frames glued in front of it in the same event: it is
@@ -462,28 +639,32 @@ class IpRun:
             self.cache[(epoch, i)] = ln + ct
         return self.cache[(epoch, i)]
 
+    @property
+    def old_cache(self):
+        return {i: f for (e, i), f in self.cache.items() if e == self.acc_epoch - 1}
+
     def wire_frame(self, ev, ahead=0):
         """Bytes the accessory / attacker puts on the TCP stream for one delivery event (None: nothing)."""
         k, a, b = ev
         if k in ("N", "R", "F"):
             i = self.srv if k == "N" else (a if k == "R" else self.srv + a)
             self.srv = max(self.srv, i + 1)
-            return self.frame(self.epoch, i, ahead)
+            return self.frame(self.acc_epoch, i, ahead)
         if k == "C":
-            f = bytearray(self.frame(self.epoch, self.srv, ahead))
+            f = bytearray(self.frame(self.acc_epoch, self.srv, ahead))
             self.srv += 1
             f[-1] ^= 1
             return bytes(f)
         if k == "O":
-            if self.epoch == 0:
+            if self.acc_epoch <= 0:
                 return None
-            old = self.old_cache.get(a)
+            old = self.cache.get((self.acc_epoch - 1, a))
             if old is None:
                 pt = b"EVENT/1.0 200 OK\r\nContent-Length: 1\r\n\r\nx"
                 ln = struct.pack("<H", len(pt))
-                ct = self.acc_keys[self.epoch - 1].encrypt(nonce_bytes(a), pt, ln)
-                TRACE.frames[ct] = (self.epoch - 1, "a", a)
-                old = self.old_cache[a] = ln + ct
+                ct = self.acc_keys[self.acc_epoch - 1].encrypt(nonce_bytes(a), pt, ln)
+                TRACE.frames[ct] = (self.acc_epoch - 1, "a", a)
+                old = self.cache[(self.acc_epoch - 1, a)] = ln + ct
             return old
         raise ValueError(f"not a delivery event: {k}")
 
@@ -520,36 +701,20 @@ class IpRun:
             self.loop.vt += 31.0
         elif k == "D":
             self.tr.peer_eof()
-        elif k in ("RC", "RD"):
+        elif k in ("RC", "RD", "RR"):
             self.tr.close()
             settle(self.loop)
             self.reqs.collect()
-            self.old_cache = {i: f for (e, i), f in self.cache.items() if e == self.epoch}
-            self.new_session()
+            if k == "RR":
+                self.replayed_session()
+            else:
+                self.new_session()
         settle(self.loop)
         self.reqs.collect()
 
 
 # --------------------------------------------------------------------------- BLE
 PAIR_VERIFY_UUID = "0000004E-0000-1000-8000-0026BB765291"
-_BLE_IDS = None
-
-
-def ble_identities():
-    """Deterministic long-term keys of the controller and the reference accessory (per process)."""
-    global _BLE_IDS
-    if _BLE_IDS is None:
-        from cryptography.hazmat.primitives import serialization
-        from cryptography.hazmat.primitives.asymmetric.ed25519 import Ed25519PrivateKey
-        raw = dict(encoding=serialization.Encoding.Raw, format=serialization.PublicFormat.Raw)
-        acc_ltsk = Ed25519PrivateKey.from_private_bytes(b"\x11" * 32)
-        ctrl_seed = b"\x22" * 32
-        ctrl_ltpk = Ed25519PrivateKey.from_private_bytes(ctrl_seed).public_key().public_bytes(**raw)
-        _BLE_IDS = dict(acc_id=b"00:00:00:00:00:01", acc_ltsk=acc_ltsk, acc_ltpk=acc_ltsk.public_key().public_bytes(**raw),
-                        ctrl_id=b"c06-controller", ctrl_seed=ctrl_seed, ctrl_ltpk=ctrl_ltpk)
-    return _BLE_IDS
-
-
 class FakeGatt:
     """Scripted GATT client.  Data characteristic: writes complete at once and are recorded; a read blocks
     until the history supplies a frame, an error, or a cancellation.  Pair-verify characteristic: the
